@@ -50,20 +50,20 @@ func b2i(b bool) int64 {
 
 type presenceAtoms struct {
 	File, Stdin, Env bool
-	Flags          map[string]bool // flag name -> present
+	Flags            map[string]bool // flag name -> present
 }
 
 var presenceFlagAtoms = []string{"outputFile", "encrypt", "redactFieldsRegexp", "redactFieldNames", "atlasProjectId", "atlasClusterName", "atlasPublicKey", "atlasPrivateKey", "atlasLogStartDate", "atlasLogEndDate"}
 
 type pathResult struct {
-	Verdict        string // reject | accept | silent-return | undecided
-	Mode           string // accept: file | stdin | atlas
-	ExitCode       int64
-	Effects        []string // effectful calls before the end
-	StderrWritten  bool
-	RuntimeDep     bool // a branch on an unknown value was taken
-	UnknownAt      string
-	Where          string
+	Verdict       string // reject | accept | silent-return | undecided
+	Mode          string // accept: file | stdin | atlas
+	ExitCode      int64
+	Effects       []string // effectful calls before the end
+	StderrWritten bool
+	RuntimeDep    bool // a branch on an unknown value was taken
+	UnknownAt     string
+	Where         string
 }
 
 type presenceInterp struct {
